@@ -300,6 +300,35 @@ Section WithCmp.
   | CR_len ops m : contents_rel ops m -> contents_rel (ops ++ [OLen]) m
   | CR_slice ops m : contents_rel ops m -> contents_rel (ops ++ [OAsSlice]) m
   | CR_perm ops m m' : contents_rel ops m -> Permutation m m' -> contents_rel ops m'.
+
+  (* what one operation must do to the sorted multiset l (result l', output r) *)
+  Definition sorted_multiset_step (l : list T) (o : op) (l' : list T) (r : out) : Prop :=
+    match o with
+    | OInsert v _ => r = RUnit /\ Permutation l' (v :: l)
+    | ODelete v =>
+        r = RBool true /\
+        ((exists x, In x l /\ cmp x v = 0) ->
+           exists x, In x l /\ cmp x v = 0 /\ Permutation l (x :: l')) /\
+        ((forall x, In x l -> cmp x v <> 0) -> l' = l)
+    | OSearch v => l' = l /\ exists b, r = RBool b /\ (b = true <-> exists x, In x l /\ cmp x v = 0)
+    | OGet i =>
+        l' = l /\
+        (0 <= i < Z.of_nat (length l) -> exists x, nth_error l (Z.to_nat i) = Some x /\ r = RVal (Ok x)) /\
+        (~ (0 <= i < Z.of_nat (length l)) -> r = RVal (Err EIndex))
+    | OPeek =>
+        l' = l /\
+        match l with
+        | [] => r = RVal (Err EEmpty)
+        | x :: _ => r = RVal (Ok x) /\ forall y, In y l -> cmp x y <= 0
+        end
+    | OLen => l' = l /\ r = RLen (Z.of_nat (length l))
+    | OAsSlice => l' = l /\ r = RSlice l
+    end.
+
+  (* total preorder given as a three-way comparator; ties (cmp a b = 0 for different a, b) allowed *)
+  Definition cmp_total_preorder : Prop :=
+    (forall a b, Z.sgn (cmp b a) = - Z.sgn (cmp a b)) /\
+    (forall a b c, cmp a b <= 0 -> cmp b c <= 0 -> cmp a c <= 0).
 End WithCmp.
 
 Arguments nid {T}. Arguments nval {T}. Arguments nht {T}.
@@ -315,3 +344,275 @@ Definition cmp_asc (a b : Z * Z) : Z := Z.sgn (fst a - fst b).
 Definition cmp_desc (a b : Z * Z) : Z := Z.sgn (fst b - fst a).
 Definition cmp_mod3 (a b : Z * Z) : Z := (fst a mod 3) - (fst b mod 3).
 Definition cmp_half (a b : Z * Z) : Z := (fst a / 2) - (fst b / 2).
+
+(* ====================================================================================
+   Layer B: "pointer model".  The same skip list with explicit pointers: a heap
+   id -> (value, Forward : list (option id)), header = id 0, the Go statements one by one,
+   loops with fuel (PFuel = out of fuel, PPanic = nil dereference / index out of range).
+   It is compared with the heights model (and with the implementation's dump) by the
+   correspondence check on every run, and by the bounded sweep props/C05_skip.v
+   (ptr_matches_heights_bounded); a general simulation theorem is NOT proved.
+   ==================================================================================== *)
+Section Ptr.
+  Variable T : Type.
+  Variable cmp : T -> T -> Z.
+
+  Record pnode := { pval : option T; pfwd : list (option nat) }.
+  Record psl := { heap : list (nat * pnode); plevel : nat; psize : Z; pnext : nat }.
+
+  Inductive pres (A : Type) := POk (a : A) | PPanic | PFuel.
+  Arguments POk {A} a. Arguments PPanic {A}. Arguments PFuel {A}.
+  Definition pbind {A B} (x : pres A) (f : A -> pres B) : pres B :=
+    match x with POk a => f a | PPanic => PPanic | PFuel => PFuel end.
+
+  Fixpoint hget (h : list (nat * pnode)) (id : nat) : option pnode :=
+    match h with
+    | [] => None
+    | (k, n) :: t => if Nat.eqb k id then Some n else hget t id
+    end.
+  Definition hset (h : list (nat * pnode)) (id : nat) (n : pnode) := (id, n) :: h.
+
+  (* NewSkipList: header with MaxLevel nil pointers, level 1 *)
+  Definition p_empty : psl :=
+    {| heap := [(0%nat, {| pval := None; pfwd := repeat None MaxLevel |})];
+       plevel := 1%nat; psize := 0; pnext := 1%nat |}.
+
+  (* p.Forward[i] *)
+  Definition pforward (h : list (nat * pnode)) (p i : nat) : pres (option nat) :=
+    match hget h p with
+    | None => PPanic
+    | Some n => match nth_error (pfwd n) i with Some x => POk x | None => PPanic end
+    end.
+  (* p.Forward[i] = x *)
+  Definition set_fwd (h : list (nat * pnode)) (p i : nat) (x : option nat) : pres (list (nat * pnode)) :=
+    match hget h p with
+    | None => PPanic
+    | Some n => if Nat.ltb i (length (pfwd n))
+                then POk (hset h p {| pval := pval n; pfwd := set_nth (pfwd n) i x |})
+                else PPanic
+    end.
+  Definition pvalue (h : list (nat * pnode)) (p : nat) : pres T :=
+    match hget h p with
+    | Some n => match pval n with Some x => POk x | None => PPanic end
+    | None => PPanic
+    end.
+
+  (* for curr.Forward[i] != nil && compare(curr.Forward[i].Val, v) < 0 { curr = curr.Forward[i] } *)
+  Fixpoint p_walk (fuel : nat) (h : list (nat * pnode)) (v : T) (i curr : nat) : pres nat :=
+    match fuel with
+    | O => PFuel
+    | S f =>
+      pbind (pforward h curr i) (fun nx =>
+        match nx with
+        | None => POk curr
+        | Some nx => pbind (pvalue h nx) (fun x => if cmp x v <? 0 then p_walk f h v i nx else POk curr)
+        end)
+    end.
+
+  (* for i := level - 1; i >= 0; i-- { <walk>; update[i] = curr } *)
+  Fixpoint p_trav (fuel : nat) (h : list (nat * pnode)) (v : T) (i curr : nat) (update : list (option nat))
+    : pres (nat * list (option nat)) :=
+    match i with
+    | O => POk (curr, update)
+    | S j => pbind (p_walk fuel h v j curr) (fun c =>
+               if Nat.ltb j (length update) then p_trav fuel h v j c (set_nth update j (Some c)) else PPanic)
+    end.
+  Definition p_fuel (s : psl) : nat := S (pnext s).
+  Definition p_traverse (s : psl) (v : T) : pres (nat * list (option nat)) :=
+    p_trav (p_fuel s) (heap s) v (plevel s) 0%nat (repeat None MaxLevel).
+
+  (* update[i] (a nil entry is dereferenced by the callers: panic) *)
+  Definition pupd (update : list (option nat)) (i : nat) : pres nat :=
+    match nth_error update i with Some (Some p) => POk p | _ => PPanic end.
+
+  (* for i := 0; i < level; i++ { newNode.Forward[i] = update[i].Forward[i]; update[i].Forward[i] = newNode } *)
+  Fixpoint p_link (h : list (nat * pnode)) (update : list (option nat)) (nw : nat) (is : list nat)
+    : pres (list (nat * pnode)) :=
+    match is with
+    | [] => POk h
+    | i :: rest =>
+      pbind (pupd update i) (fun ui =>
+      pbind (pforward h ui i) (fun nx =>
+      pbind (set_fwd h nw i nx) (fun h1 =>
+      pbind (set_fwd h1 ui i (Some nw)) (fun h2 => p_link h2 update nw rest))))
+    end.
+
+  Fixpoint set_range (update : list (option nat)) (is : list nat) (x : option nat) : pres (list (option nat)) :=
+    match is with
+    | [] => POk update
+    | i :: rest => if Nat.ltb i (length update) then set_range (set_nth update i x) rest x else PPanic
+    end.
+
+  Definition p_insert (v : T) (lvl : nat) (s : psl) : pres psl :=
+    pbind (p_traverse s v) (fun cu =>
+    let update := snd cu in
+    pbind (if Nat.ltb (plevel s) lvl
+           then set_range update (List.seq (plevel s) (lvl - plevel s)) (Some 0%nat)
+           else POk update) (fun update' =>
+    let nw := pnext s in
+    let h0 := hset (heap s) nw {| pval := Some v; pfwd := repeat None lvl |} in
+    pbind (p_link h0 update' nw (List.seq 0%nat lvl)) (fun h1 =>
+    POk {| heap := h1; plevel := Nat.max (plevel s) lvl; psize := psize s + 1; pnext := S nw |}))).
+
+  (* for i := 0; i < sl.level && update[i].Forward[i] == node; i++ { update[i].Forward[i] = node.Forward[i] } *)
+  Fixpoint p_unlink (n : nat) (h : list (nat * pnode)) (update : list (option nat)) (node i : nat)
+    : pres (list (nat * pnode)) :=
+    match n with
+    | O => POk h
+    | S m =>
+      pbind (pupd update i) (fun ui =>
+      pbind (pforward h ui i) (fun nx =>
+        match nx with
+        | Some k => if Nat.eqb k node
+                    then pbind (pforward h node i) (fun nn =>
+                         pbind (set_fwd h ui i nn) (fun h1 => p_unlink m h1 update node (S i)))
+                    else POk h
+        | None => POk h
+        end))
+    end.
+
+  (* for sl.level > 1 && sl.header.Forward[sl.level-1] == nil { sl.level-- } *)
+  Fixpoint p_trim (h : list (nat * pnode)) (lv : nat) : pres nat :=
+    match lv with
+    | O => POk O
+    | S j => if Nat.ltb 1 lv
+             then pbind (pforward h 0%nat j) (fun x => match x with None => p_trim h j | Some _ => POk lv end)
+             else POk lv
+    end.
+
+  Definition p_delete (v : T) (s : psl) : pres (psl * bool) :=
+    pbind (p_traverse s v) (fun cu =>
+    pbind (pforward (heap s) (fst cu) 0%nat) (fun node =>
+      match node with
+      | None => POk (s, true)
+      | Some nd =>
+        pbind (pvalue (heap s) nd) (fun x =>
+          if negb (cmp x v =? 0) then POk (s, true)
+          else
+            pbind (p_unlink (plevel s) (heap s) (snd cu) nd 0%nat) (fun h1 =>
+            pbind (p_trim h1 (plevel s)) (fun lv =>
+            POk ({| heap := h1; plevel := lv; psize := psize s - 1; pnext := pnext s |}, true))))
+      end)).
+
+  Definition p_search (v : T) (s : psl) : pres bool :=
+    pbind (p_traverse s v) (fun cu =>
+    pbind (pforward (heap s) (fst cu) 0%nat) (fun node =>
+      match node with
+      | None => POk false
+      | Some nd => pbind (pvalue (heap s) nd) (fun x => POk (cmp x v =? 0))
+      end)).
+
+  (* the chain of level i from the header *)
+  Fixpoint p_chain_from (fuel : nat) (h : list (nat * pnode)) (i curr : nat) : pres (list nat) :=
+    match fuel with
+    | O => PFuel
+    | S f => pbind (pforward h curr i) (fun nx =>
+               match nx with
+               | None => POk []
+               | Some k => pbind (p_chain_from f h i k) (fun l => POk (k :: l))
+               end)
+    end.
+  Definition p_chain (s : psl) (i : nat) : pres (list nat) := p_chain_from (p_fuel s) (heap s) i 0%nat.
+
+  Fixpoint pmapM {A B} (f : A -> pres B) (l : list A) : pres (list B) :=
+    match l with
+    | [] => POk []
+    | a :: t => pbind (f a) (fun b => pbind (pmapM f t) (fun bs => POk (b :: bs)))
+    end.
+
+  Definition p_towers (s : psl) : pres (list (list nat)) := pmapM (p_chain s) (List.seq 0%nat MaxLevel).
+  Definition p_as_slice (s : psl) : pres (list T) :=
+    pbind (p_chain s 0%nat) (fun ids => pmapM (pvalue (heap s)) ids).
+  Definition p_heights (s : psl) : pres (list (nat * nat)) :=
+    pbind (p_chain s 0%nat) (fun ids =>
+      pmapM (fun k => match hget (heap s) k with Some n => POk (k, length (pfwd n)) | None => PPanic end) ids).
+
+  Definition p_peek (s : psl) : pres (outcome T) :=
+    pbind (pforward (heap s) 0%nat 0%nat) (fun x =>
+      match x with
+      | None => POk (Err EEmpty)
+      | Some k => pbind (pvalue (heap s) k) (fun v => POk (Ok v))
+      end).
+
+  (* curr := header; for i := 0; i <= index; i++ { curr = curr.Forward[0] }; curr.Val *)
+  Fixpoint p_hops (n : nat) (h : list (nat * pnode)) (curr : option nat) : pres (option nat) :=
+    match n with
+    | O => POk curr
+    | S m => match curr with
+             | None => PPanic
+             | Some c => pbind (pforward h c 0%nat) (fun nx => p_hops m h nx)
+             end
+    end.
+  Definition p_get (index : Z) (s : psl) : pres (outcome T) :=
+    if (index <? 0) || (psize s <=? index) then POk (Err EIndex)
+    else pbind (p_hops (S (Z.to_nat index)) (heap s) (Some 0%nat)) (fun c =>
+           match c with
+           | None => PPanic
+           | Some k => pbind (pvalue (heap s) k) (fun v => POk (Ok v))
+           end).
+
+  Definition p_step (s : psl) (o : op T) : pres (psl * out T) :=
+    match o with
+    | OInsert v r => pbind (p_insert v (random_level r) s) (fun s' => POk (s', RUnit))
+    | ODelete v => pbind (p_delete v s) (fun sb => POk (fst sb, RBool (snd sb)))
+    | OSearch v => pbind (p_search v s) (fun b => POk (s, RBool b))
+    | OGet i => pbind (p_get i s) (fun r => POk (s, RVal r))
+    | OPeek => pbind (p_peek s) (fun r => POk (s, RVal r))
+    | OLen => POk (s, RLen (psize s))
+    | OAsSlice => pbind (p_as_slice s) (fun l => POk (s, RSlice l))
+    end.
+End Ptr.
+Arguments POk {A} a. Arguments PPanic {A}. Arguments PFuel {A}.
+
+(* ---------- bounded exhaustive comparison pointer model = heights model ---------- *)
+(* values (key, tag) under "key div 2" (0 and 1 tie), towers 1..3, DeleteElement of 0,1,2 *)
+Definition sweep_alphabet : list (op (Z * Z)) :=
+  flat_map (fun k => map (fun r => OInsert (k, k) r) [0%nat; 1%nat; 2%nat]) [0; 1; 2] ++
+  map (fun k => ODelete (k, 0)) [0; 1; 2].
+Definition sweep_probes : list (op (Z * Z)) :=
+  map (fun k => OSearch (k, 0)) [0; 1; 2; 3] ++ map OGet [-1; 0; 1; 2; 3; 4; 5; 6] ++ [OPeek; OLen; OAsSlice].
+
+Definition v2_eqb (a b : Z * Z) : bool := Z.eqb (fst a) (fst b) && Z.eqb (snd a) (snd b).
+Fixpoint leqb {A} (e : A -> A -> bool) (a b : list A) : bool :=
+  match a, b with
+  | [], [] => true
+  | x :: a', y :: b' => e x y && leqb e a' b'
+  | _, _ => false
+  end.
+Definition out_eqb (a b : out (Z * Z)) : bool :=
+  match a, b with
+  | RUnit, RUnit => true
+  | RBool x, RBool y => Bool.eqb x y
+  | RVal (Ok x), RVal (Ok y) => v2_eqb x y
+  | RVal (Err _), RVal (Err _) => true
+  | RVal Panic, RVal Panic => true
+  | RLen x, RLen y => Z.eqb x y
+  | RSlice x, RSlice y => leqb v2_eqb x y
+  | _, _ => false
+  end.
+Definition nn_eqb (a b : nat * nat) : bool := Nat.eqb (fst a) (fst b) && Nat.eqb (snd a) (snd b).
+
+(* level, size, every node's height and all 32 chains agree, and so does every probe *)
+Definition ptr_agrees (sp : psl (Z * Z)) (sh : sl (Z * Z)) : bool :=
+  Nat.eqb (plevel _ sp) (level sh) && Z.eqb (psize _ sp) (size sh) && Nat.eqb (pnext _ sp) (nextid sh) &&
+  rep sh &&
+  match p_towers _ sp, p_heights _ sp with
+  | POk tw, POk hs => leqb (leqb Nat.eqb) tw (towers _ sh) && leqb nn_eqb hs (heights _ sh)
+  | _, _ => false
+  end &&
+  forallb (fun o => match p_step _ cmp_half sp o with
+                    | POk (_, r) => out_eqb r (snd (step _ cmp_half sh o))
+                    | _ => false
+                    end) sweep_probes.
+
+(* all histories of at most n mutating operations over sweep_alphabet, every prefix checked *)
+Fixpoint ptr_sweep (n : nat) (sp : psl (Z * Z)) (sh : sl (Z * Z)) : bool :=
+  ptr_agrees sp sh &&
+  match n with
+  | O => true
+  | S m => forallb (fun o => match p_step _ cmp_half sp o with
+                             | POk (sp', r) => let '(sh', r') := step _ cmp_half sh o in
+                                               out_eqb r r' && ptr_sweep m sp' sh'
+                             | _ => false
+                             end) sweep_alphabet
+  end.
